@@ -65,6 +65,41 @@ example : evalExpr (toExpr (.seq (.cons (.u64 1) (.cons .null (.cons (.u64 3) .n
     .ok (.table (.cons (.int 3) (.num 0x4008000000000000) (.cons (.int 1) (.num 0x3ff0000000000000) .nil))) := by
   rfl
 
+
+/-- **Corollary for documents with string keys** (everything JSON, JSON5 and TOML can express,
+and YAML documents whose mapping keys are strings): the hypothesis is stated on the data alone —
+integers within `i64`/`u64`, object keys pairwise different byte strings — and the emitted
+expression evaluates without error to a value equal to the document. In particular an object
+becomes a table with exactly the same string keys, whatever bytes they contain. -/
+theorem serialize_denotes_json (d : Data) (h : JsonLike d = true) :
+    ∃ v, evalExpr (toExpr d) = .ok v ∧ DataEq d v :=
+  serialize_denotes_partial d (H14_of_jsonLike d h)
+
+/-- keys: a keyword, digit-first, empty, quote+NUL+apostrophe, non-ASCII, an identifier;
+values: nested arrays with nulls, integers beyond 2^53, an empty object -/
+def sampleJson : Data :=
+  .map (.cons (.str [100, 111]) (.seq (.cons (.u64 1) (.cons .null (.cons (.seq (.cons .null .nil)) .nil))))
+    (.cons (.str [49, 97]) .null
+    (.cons (.str []) (.i64 (-9007199254740993))
+    (.cons (.str [34, 0, 39]) (.u64 18446744073709551615)
+    (.cons (.str [195, 169]) (.map .nil)
+    (.cons (.str [111, 107, 95, 49]) (.f64 0x3ff8000000000000) .nil))))))
+
+example : JsonLike sampleJson = true := by decide
+example : ∃ v, evalExpr (toExpr sampleJson) = .ok v ∧ DataEq sampleJson v :=
+  serialize_denotes_json sampleJson (by decide)
+
+/-- **The defect region is real for every document, not only the witness**: whatever the value
+and the other entries, a map whose first key is null makes the emitted constructor raise
+`table index is nil` (F15). -/
+theorem null_key_always_raises (v : Data) (tl : PairList) :
+    evalExpr (toExpr (.map (.cons .null v tl))) = .error .nilIndex := by
+  simp only [toExpr, mapEntries, completeTableEntry, evalExpr, evalEntries, toKey]
+
+example : evalExpr (toExpr (.map (.cons .null (.seq (.cons (.u64 1) .nil)) (.cons (.str [97]) .null .nil)))) =
+    .error .nilIndex :=
+  null_key_always_raises _ _
+
 /-! ## integers become the nearest double -/
 
 /-- **`v as f64` as modelled is the nearest double, ties to even**, for every integer of
